@@ -692,3 +692,42 @@ def r_options(ctx):
 def r8(ctx):
     from .c01 import r8 as trace_equivalence
     trace_equivalence(ctx)
+
+
+@rule("R-C06-11", min_instances=2, title="an ill-formed text message leaves the receive call as WebSocketPayloadException (an ill-formed close reason as WebSocketProtocolException) even when a write the library attempts on the way out fails: a transport error of its own making does not replace the verdict on the payload")
+def r11(ctx):
+    from ..absint import RaiseSig
+    from ..values import HObj, Tup
+    fn = "_core:WebSocket.recv_data_frame"
+
+    def failing_write(name):
+        def stub(I, run, a, k, n):
+            run.effect(name, a[1:], k, node=n)
+            if run.choose(2, I.locof(n), f"{name} fails: the peer is gone") == 1:
+                run.effect("@write-failed", (C(name),), node=n)
+                raise RaiseSig(run.alloc(HObj("builtins.BrokenPipeError", {"args": Tup(())})), n)
+            return C(None)
+        return stub
+
+    I = Interp(ctx.index, recv_config(extra_stubs={"_core:WebSocket.send_close": failing_write("send_close"), "_core:WebSocket.pong": failing_write("pong"),
+                                                   "_core:WebSocket.send": failing_write("send")}))
+    for state in ("idle", "text"):
+        outs = explore_recv(ctx, I, "recv_data_frame", state, control_frame=FALSE, fire=FALSE, skip=FALSE)
+        n = 0
+        bad = None
+        for o in outs:
+            f = o.run.facts.get(Sym("utf8ok", "bool").key())
+            d = frame_dims(I, o)
+            if not f or f.truth is not False or not isinstance(d, dict):
+                continue
+            n += 1
+            want = PROTO_EXC if d["opcode"].lo == d["opcode"].hi == 8 else PAYLOAD_EXC
+            if not (o.kind == "raise" and exc_is(I, o, want)):
+                bad = bad or (o, want)
+        if n == 0:
+            raise AnalysisError(f"state {state}: no path with a falsy validator result")
+        ctx.ob(f"{fn}:{state}:verdict-survives-failing-write", bad is None,
+               f"{n} paths with ill-formed text: the payload / protocol exception reaches the caller" if bad is None else
+               f"ill-formed text: the call ends as {bad[0].kind} {bad[0].exc_class or bad[0].value!r} instead of {bad[1].split(':')[1]} "
+               f"(a write attempted while rejecting failed: {[e.args[0].v for e in bad[0].effects if e.name == '@write-failed']})",
+               bad[0].raise_loc if bad else ctx.index.loc(ctx.index.func(fn).node), {"path": path_text(bad[0])} if bad else None)
